@@ -720,7 +720,8 @@ def _make_delimiters(model, it, dels):
 
 def _stack_chunk(args):
     """Worker: interpret process_emphasis on each stack of a chunk; returns (n, known counts, unexplained)."""
-    model, combos = args
+    model, combos = args[0], args[1]
+    only_raises = len(args) > 2 and args[2]
     pe = model.func('core_tokens.process_emphasis')
     dcls = model.cls('core_tokens.Delimiter')
     known = {'rule3-current': 0, 'coarse-bottom': 0}
@@ -771,7 +772,7 @@ def _stack_chunk(args):
             label += ' with the stack bottom at element %d' % bottom
         if spans(known_deviation_model(sub, False, False)) != want:
             raise AnalysisError('the deviation model disagrees with the specification algorithm on [%s]' % label)
-        if got == want:
+        if got == want or (only_raises and not (isinstance(got, str) and got.startswith('raises'))):
             continue
         # describe the difference when it is one of the two deviations this code base once had
         if got == spans(known_deviation_model(sub, True, False)):
@@ -786,7 +787,7 @@ def _stack_chunk(args):
     return len(combos), known, new[:5], len(new)
 
 
-def rule_stack_sim(ctx, rep):
+def rule_stack_sim(ctx, rep, only_raises=False):
     """The delimiter-stack surgery of process_emphasis, decided for bounded stacks: process_emphasis itself is
     interpreted (helpers followed) on a stack of Delimiter objects with symbolic positions and the set of
     matches it records is compared with the specification's algorithm on the same stack. Families of stacks:
@@ -797,8 +798,11 @@ def rule_stack_sim(ctx, rep):
     single-character runs."""
     from ..par import pmap
     model = ctx.model
-    rule = 'R-STACK-SIM'
-    rep.rule(rule, 'for bounded delimiter stacks, process_emphasis records exactly the matches of the specification\'s algorithm')
+    rule = 'R-STACK-SIM' if not only_raises else 'R-EMPH-TOTAL'
+    if only_raises:
+        rep.rule(rule, 'for bounded delimiter stacks, process_emphasis neither raises nor fails to terminate')
+    else:
+        rep.rule(rule, 'for bounded delimiter stacks, process_emphasis records exactly the matches of the specification\'s algorithm')
     pe = model.func('core_tokens.process_emphasis')
     unit = model.unit_of(pe)
     flags = ((True, False), (False, True), (True, True))
@@ -836,7 +840,7 @@ def rule_stack_sim(ctx, rep):
         combos = list(gen)
         chunks = [combos[i:i + 400] for i in range(0, len(combos), 400)]
         fam_new = 0
-        for n, kn, nw, cnt in pmap(_stack_chunk, [(model, ch) for ch in chunks]):
+        for n, kn, nw, cnt in pmap(_stack_chunk, [(model, ch, only_raises) for ch in chunks]):
             total += n
             for k in known:
                 known[k] += kn[k]
@@ -852,6 +856,11 @@ def rule_stack_sim(ctx, rep):
         if why in shown or len(shown) >= 3:
             continue
         shown.add(why)
+        if only_raises:
+            rep.find(rule, 'core_tokens.process_emphasis', 'stack-raises:%s' % got.split()[-1],
+                     'on the delimiter stack [%s] (run, o = can open, c = can close) process_emphasis %s' % (label, got),
+                     loc(unit, pe.node))
+            continue
         rep.find(rule, 'core_tokens.process_emphasis', 'stack-differs:%s' % ('rule-of-three-on-remaining-lengths' if why and 'rule of three' in why
                                                                              else 'opener-bound-too-coarse' if why else 'other'),
                  'on the delimiter stack [%s] (run, o = can open, c = can close) process_emphasis records %s; the '
